@@ -14,6 +14,9 @@ rule_sets   generated rule sets in 1-3 synthetic modules (module base names, key
             metadata dict / dependency list object for several decorators) and a generated "configs" list
             goes through insights.apply_configs before the evaluation (entries naming one rule, a module,
             nothing): every rule is reported with its own tags and links, runs iff it is enabled.
+            The declarations are spelled the ways the decorator accepts: tags as a list / tuple / set /
+            frozenset / dict view / one-shot iterator, on the decorator or on a rule subclass (class level
+            tags), dependencies positionally or with requires=, a lone optional dependency bare or in a list.
 filtering   the same check on a fixed rule set holding every outcome class, for *every*
             missing x show_rules-subset combination (finite, enumerated) through JSON and YAML.
 responses   response constructor arguments: key validation, reserved names, payload sizes
@@ -41,7 +44,9 @@ RULE = ("rule sets of 1-10 generated rules in 1-3 synthetic modules (colliding m
         "per rule whether its body reads its arguments, a dependency declaration (required, at-least-one groups, optional; possibly none), "
         "enabled/disabled, tags, links, metadata - each one the rule's own literal or a constant shared by several "
         "rule declarations (the same dict / list object handed to several decorators; likewise identical group / "
-        "optional lists) - optionally a 'configs' list of 1-3 entries applied through insights.apply_configs after "
+        "optional lists), tags spelled as a list / tuple / set / frozenset / dict view / iterator, rules declared with "
+        "@rule or with a generated rule subclass carrying class level tags, dependencies given positionally or as "
+        "requires=[...], a lone optional dependency bare or wrapped in a list - optionally a 'configs' list of 1-3 entries applied through insights.apply_configs after "
         "a YAML round trip (each naming one rule exactly, a module by prefix, or nothing, and carrying any of "
         "links / tags / metadata / enabled, own values or anchors shared between entries) "
         "and a return kind out of fail, response, pass, info, "
@@ -65,6 +70,10 @@ ASSUMPTIONS = [
     "the YAML output is read back with a loader that maps python/object tags to plain dicts",
     "formatter adapter options follow their help texts: -F = -S fail, dropped when -m is given, "
     "-S wins over -F",
+    "ComponentType.__init__ turns whatever iterable of strings it is given as tags= into a set, together with the "
+    "class level tags of the decorator class (documented type: list; tuple / set / frozenset / dict views / "
+    "iterators behave the same on the unchanged tree): the rule's tags are the strings in it, however spelled; "
+    "requires=[...] stands for the positional dependencies when there are none; optional=X stands for optional=[X]",
     "apply_configs docstring: an entry applies to every component whose name starts with its name; 'enabled' "
     "defaults to True for the components an entry names (the last entry naming a rule decides); a rule no entry "
     "with links (tags) names is reported with exactly the links (tags) it declares; a rule such entries name is "
@@ -214,6 +223,57 @@ def _declared(case, r, what):
     return r.get(what)
 
 
+TAG_FORMS = ("list", "tuple", "set", "frozenset", "dictkeys", "iter")
+
+
+def _rtype(case, r):
+    """the generated rule subclass rule r is declared with (None: insights.core.plugins.rule itself)"""
+    rts = case.get("rtypes") or []
+    if r.get("rtype") is None or not rts:
+        return None
+    return r["rtype"] % len(rts)
+
+
+def _declared_tags(case, r):
+    """'tags: a list of strings that categorize the component' - those of the decorator class (class level
+    attribute of a rule subclass) and those given to the decorator, however the author spelled the collection"""
+    out = list(_declared(case, r, "tags") or [])
+    k = _rtype(case, r)
+    if k is not None:
+        out.extend(case["rtypes"][k].get("tags") or [])
+    return out
+
+
+def _tags_form(case, r):
+    """how the tags= argument of rule r is spelled"""
+    ref = r.get("tags_ref")
+    pool = _pool(case, "tags")
+    if ref is not None and pool:
+        forms = (case.get("pools") or {}).get("tags_form") or []
+        form = forms[(ref % len(pool)) % len(forms)] if forms else "list"
+    else:
+        form = r.get("tags_form") or "list"
+    if form not in TAG_FORMS:
+        raise HarnessError("bad case: tags form %r" % (form,))
+    return form
+
+
+def _spell_tags(v, form):
+    """the same tags, written the way the author chose"""
+    v = list(v)
+    if form == "tuple":
+        return tuple(v)
+    if form == "set":
+        return set(v)
+    if form == "frozenset":
+        return frozenset(v)
+    if form == "dictkeys":
+        return dict.fromkeys(v).keys()
+    if form == "iter":
+        return (t for t in v)
+    return v
+
+
 def _cfg_value(case, e, what):
     """-> (does the entry carry the key?, value)"""
     ref = e.get(what + "_ref")
@@ -292,6 +352,8 @@ def _tags_problem(declared, configured, got):
     declared = set(declared or [])
     if not isinstance(got, list):
         return "tags %r, not a list" % (got,)
+    if not all(isinstance(t, str) for t in got):
+        return "tags %r, not a list of strings (the rule declares %r)" % (got, sorted(declared))
     if not configured:
         if sorted(got) != sorted(declared):
             return "tags %r, the rule declares %r and no configuration entry with tags names it" % (got, sorted(declared))
@@ -448,6 +510,15 @@ def selftest():
     assert _tags_problem(["a", "a"], [], ["a"]) is None and _tags_problem(["a"], [], ["a", "a"]) and _tags_problem(None, [], ["a"])
     assert _tags_problem(["a"], [["b"]], ["b"]) is None and _tags_problem(["a"], [["b"]], ["a", "b"]) is None
     assert _tags_problem(["a"], [["b"]], ["a"]) and _tags_problem(["a"], [["b"]], ["b", "c"])
+    # spellings of a declaration
+    case = {"pools": {"tags": [["a", "b"], ["c"]], "tags_form": ["frozenset", "tuple"]}, "rtypes": [{"tags": ["k", "a"]}],
+            "rules": [{"tags_ref": 0, "tags": ["own"], "tags_form": "iter", "rtype": 2}, {"tags": ["own"], "tags_form": "set"},
+                      {"tags_ref": 3, "rtype": None}, {"tags": None, "rtype": 0}]}
+    assert [_tags_form(case, r) for r in case["rules"]] == ["frozenset", "set", "tuple", "list"]
+    assert [sorted(set(_declared_tags(case, r))) for r in case["rules"]] == [["a", "b", "k"], ["own"], ["c"], ["a", "k"]]
+    assert _spell_tags(["a", "b", "a"], "tuple") == ("a", "b", "a") and _spell_tags(["a", "b"], "frozenset") == frozenset("ab")
+    assert sorted(_spell_tags(["a", "b"], "dictkeys")) == ["a", "b"] and list(_spell_tags(["a"], "iter")) == ["a"]
+    assert _tags_problem(["a", "b"], [], [["a", "b"]]) and _tags_problem(["a"], [], ["a", ["b"]]) and _tags_problem(["a"], [["a"]], [["a"]])
     assert _effective_show({"evaluator": "json", "missing": False, "show_rules": []}) == (False, set(SHOW_OPTS) - set(["none"]))
     assert _effective_show({"evaluator": "json-adapter", "missing": True, "fail_only": True, "show_rules": []}) == (True, set(SHOW_OPTS) - set(["none"]))
     assert _effective_show({"evaluator": "yaml-adapter", "missing": False, "fail_only": True, "show_rules": []}) == (False, set(["rule"]))
@@ -457,8 +528,11 @@ def selftest():
 # ------------------------------------------------------------------------------------------------
 # building and running the real thing
 
-def _cleanup(comps, modnames):
+def _cleanup(comps, modnames, rtypes=()):
     from insights.core import dr
+    for t in rtypes:
+        dr.COMPONENTS_BY_TYPE.pop(t, None)
+        dr.TYPE_OBSERVERS.pop(t, None)
     for regname in ("DELEGATES", "DEPENDENCIES", "DEPENDENTS", "ENABLED", "IGNORE", "MODULE_NAMES",
                     "BASE_MODULE_NAMES"):
         reg = getattr(dr, regname)
@@ -502,6 +576,7 @@ def _yaml_loader():
 
     Loader.add_multi_constructor("tag:yaml.org,2002:python/name:", _name)
     Loader.add_multi_constructor("tag:yaml.org,2002:python/object:", _obj)
+    Loader.add_multi_constructor("tag:yaml.org,2002:python/object/apply:", _obj)
     Loader.add_constructor("tag:yaml.org,2002:python/tuple", _tuple)
     Loader.add_multi_constructor("tag:yaml.org,2002:python/object/new:", _objnew)
     return Loader
@@ -671,11 +746,12 @@ def _build_ups(case, upmod, m, comps):
     return ups
 
 
-def _build_rules(case, uid, log):
+def _build_rules(case, uid, log, comps, modnames, rtypes):
+    """declares everything; what it registers is appended to comps / modnames / rtypes (the caller's lists, so
+    that a declaration failing half way is cleaned up as well)"""
     from insights.core import dr
     from insights.core.plugins import rule
     limit = case.get("limit") or DEFAULT_LIMIT
-    comps, modnames = [], []
     upmod = "vp_c12_u%d_up.deps" % uid
     m = types.ModuleType(upmod)
     sys.modules[upmod] = m
@@ -695,6 +771,17 @@ def _build_rules(case, uid, log):
     # module level constants shared between rule declarations: one object per pool entry, handed to every
     # decorator that refers to it (never the case's own objects - the case stays what was generated)
     shared = dict((what, [copy.deepcopy(v) for v in _pool(case, what)]) for what in SHAREABLE)
+    # ... each in the spelling its author chose (a TAGS tuple / set / frozenset instead of a list); a one-shot
+    # iterator cannot be a shared constant
+    pforms = (case.get("pools") or {}).get("tags_form") or []
+    if any(f not in TAG_FORMS or f == "iter" for f in pforms):
+        raise HarnessError("bad case: spelling of a shared tags constant")
+    if pforms:
+        shared["tags"] = [_spell_tags(v, pforms[k % len(pforms)]) for k, v in enumerate(shared["tags"])]
+    # rule subclasses with class level tags ('tags: a list of strings', documented class attribute)
+    for k, rt in enumerate(case.get("rtypes") or []):
+        cls = type("vp_c12_rule%d" % k, (rule,), {"tags": list(rt.get("tags") or []), "__module__": upmod})
+        rtypes.append(cls)
     arglists = {}
 
     def arglist(kind, idx):
@@ -727,19 +814,36 @@ def _build_rules(case, uid, log):
         kw = {}
         if opt or r.get("empty_optional"):
             kw["optional"] = arglist("opt", opt)
+            if len(opt) == 1 and r.get("opt_single"):
+                kw["optional"] = ups[opt[0]]            # optional=X for optional=[X]
         for what in SHAREABLE:
             ref = r.get(what + "_ref")
             if ref is not None and shared[what]:
                 kw[what] = shared[what][ref % len(shared[what])]
             elif r.get(what) is not None:
                 kw[what] = copy.deepcopy(r[what])
-        comp = rule(*args, **kw)(body)
+                if what == "tags":
+                    kw[what] = _spell_tags(kw[what], _tags_form(case, r))
+        if r.get("requires_kw") and args:
+            kw["requires"] = args                       # the older spelling of the positional dependencies
+            args = []
+        k = _rtype(case, r)
+        deco = rule if k is None else rtypes[k]
+        try:
+            comp = deco(*args, **kw)(body)
+        except (TypeError, ValueError, AttributeError) as e:
+            raise Violation("rule %d could not be declared (tags=%r spelled as a %s%s%s): %s: %s"
+                            % (i, _declared(case, r, "tags"), _tags_form(case, r),
+                               ", dependencies as requires=" if "requires" in kw else "",
+                               ", a bare optional dependency" if "optional" in kw and not isinstance(kw["optional"], list) else "",
+                               type(e).__name__, e),
+                            rule=dict((kk, vv) for kk, vv in r.items() if kk != "ret"))
         rules.append(comp)
         comps.append(comp)
         names.append("%s.%s" % (full, body.__name__))
         if not r["enabled"]:
             dr.set_enabled(comp, False)
-    return comps, modnames, ups, rules, names, [md["base"] for md in case["modules"]], [full for full, _ in mods]
+    return ups, rules, names, [md["base"] for md in case["modules"]], [full for full, _ in mods]
 
 
 def _apply_config(case, names, modfulls):
@@ -878,14 +982,14 @@ def check_rules(case):
         raise HarnessError("bad case")
     uid = next(_counter)
     log = []
-    comps, modnames = [], []
+    comps, modnames, rtypes = [], [], []
     old_limit = settings.defaults["max_detail_length"]
     plog = logging.getLogger("insights.core.plugins")
     old_disabled = plog.disabled
     try:
         plog.disabled = True
         settings.defaults["max_detail_length"] = limit
-        comps, modnames, ups, rules, names, bases, modfulls = _build_rules(case, uid, log)
+        ups, rules, names, bases, modfulls = _build_rules(case, uid, log, comps, modnames, rtypes)
         upnames = [dr.get_name(u) for u in ups]
         for j, un in enumerate(upnames):
             if _NAME_RE.findall(un) != [un] or not un.endswith(".up%d" % j):
@@ -948,13 +1052,13 @@ def check_rules(case):
                 m = model[i]
                 if m["cls"] != "typed":
                     raise Violation("rule %d (%s) is reported under %r but its outcome is: %s"
-                                    % (i, names[i], heading, m["cls"]), entry=ent)
+                                    % (i, names[i], heading, m["cls"]), entry=_view(ent))
                 if HEADING[m["type"]] != heading:
                     raise Violation("rule %d (%s) of type %r is reported under %r, expected %r"
-                                    % (i, names[i], m["type"], heading, HEADING[m["type"]]), entry=ent)
+                                    % (i, names[i], m["type"], heading, HEADING[m["type"]]), entry=_view(ent))
                 if i in seen:
                     raise Violation("rule %d (%s) is reported more than once" % (i, names[i]),
-                                    first=seen[i], second=ent)
+                                    first=_view(seen[i]), second=_view(ent))
                 seen[i] = ent
         for i, m in enumerate(model):
             r = case["rules"][i]
@@ -995,18 +1099,18 @@ def check_rules(case):
                 for k, v in want.items():
                     if ent.get(k, "<absent>") != v:
                         raise Violation("entry of rule %d carries %s=%r, expected %r" % (i, k, ent.get(k, "<absent>"), v),
-                                        entry=ent)
+                                        entry=_view(ent))
                 # its own links and tags: what this rule declares (alone or through a constant it shares with
                 # other rules) and what the configuration says about *this* rule
                 why = _links_problem(_declared(case, r, "links"), _configured(case, i, matches, "links"),
                                      ent.get("links", "<absent>"))
                 if why:
-                    raise Violation("entry of rule %d (%s) carries %s" % (i, names[i], why), entry=ent,
+                    raise Violation("entry of rule %d (%s) carries %s" % (i, names[i], why), entry=_view(ent),
                                     configs=_cfg_view(case, names, modfulls))
-                why = _tags_problem(_declared(case, r, "tags"), _configured(case, i, matches, "tags"),
+                why = _tags_problem(_declared_tags(case, r), _configured(case, i, matches, "tags"),
                                     ent.get("tags", "<absent>"))
                 if why:
-                    raise Violation("entry of rule %d (%s) carries %s" % (i, names[i], why), entry=ent,
+                    raise Violation("entry of rule %d (%s) carries %s" % (i, names[i], why), entry=_view(ent),
                                     configs=_cfg_view(case, names, modfulls))
                 det = ent.get("details")
                 if not isinstance(det, dict) or dict(det) != m["response"]:
@@ -1122,6 +1226,22 @@ def check_rules(case):
                     labels.add("config-%s-a-rule" % ("enables" if en[-1] else "disables"))
         if case.get("share_args"):
             labels.add("shared-dependency-lists")
+        # how the declarations are spelled
+        for i in reported:
+            r = case["rules"][i]
+            if _declared(case, r, "tags"):
+                labels.add("reported-tags-spelled=%s%s" % (_tags_form(case, r), ":shared" if r.get("tags_ref") is not None
+                                                            and _pool(case, "tags") else ""))
+            k = _rtype(case, r)
+            if k is not None:
+                labels.add("reported-rule-subclass:%s" % ("class-tags" if case["rtypes"][k].get("tags") else "no-class-tags"))
+                if case["rtypes"][k].get("tags") and _declared(case, r, "tags"):
+                    labels.add("reported-class-tags+own-tags")
+        for r in case["rules"]:
+            if r.get("requires_kw") and any(d[0] != "opt" for d in r["decl"]):
+                labels.add("deps-spelled=requires-kw")
+            if r.get("opt_single") and sum(1 for d in r["decl"] if d[0] == "opt") == 1:
+                labels.add("optional-spelled=bare")
         keys = [(m.get("key"), case["rules"][i]["mod"]) for i, m in enumerate(model) if m["cls"] == "typed"]
         share_key = len(set(k for k, _ in keys)) < len(keys)
         share_mod = len(set(r["mod"] for r in case["rules"])) < len(case["rules"])
@@ -1134,7 +1254,7 @@ def check_rules(case):
     finally:
         settings.defaults["max_detail_length"] = old_limit
         plog.disabled = old_disabled
-        _cleanup(comps, modnames)
+        _cleanup(comps, modnames, rtypes)
 
 
 def _cfg_view(case, names, modfulls):
@@ -1153,6 +1273,15 @@ def _cfg_view(case, names, modfulls):
 
 def _opts(case):
     return dict((k, case.get(k)) for k in ("evaluator", "missing", "show_rules", "fail_only", "incremental"))
+
+
+def _view(ent):
+    """a report entry as it goes into a violation record: evaluators hand out live objects (whatever the
+    delegate holds as tags / links), a record must survive pickling and JSON"""
+    try:
+        return json.loads(json.dumps(ent, default=repr))
+    except (TypeError, ValueError):
+        return repr(ent)[:600]
 
 
 def _short(v):
@@ -1346,6 +1475,12 @@ def _rule_set(draw, tier):
     def ref(what, weights):
         return draw(st.sampled_from(weights)) if pools[what] else None
 
+    # the spelling of the declarations: tags collections other than lists, rule subclasses with class level tags,
+    # requires= for the positional dependencies, a bare optional dependency
+    spelled = draw(st.booleans())
+    rtypes = draw(st.lists(st.fixed_dictionaries({"tags": _tags}), max_size=2)) if spelled else []
+    if pools["tags"] and spelled:
+        pools["tags_form"] = [draw(st.sampled_from([f for f in TAG_FORMS if f != "iter"])) for _ in pools["tags"]]
     for _ in range(nrules):
         links = draw(st.one_of(st.none(), st.just({}), _links))
         rules.append({"mod": draw(st.integers(0, nmod - 1)), "decl": draw(_decl()),
@@ -1358,6 +1493,12 @@ def _rule_set(draw, tier):
             rules[-1].update({"links_ref": ref("links", [None, 0, 0, 1]), "tags_ref": ref("tags", [None, 0, 0, 1]),
                               "metadata_ref": ref("metadata", [None, 0, 1]),
                               "metadata": draw(st.one_of(st.none(), _meta))})
+        if spelled:
+            rules[-1].update({"tags_form": draw(st.sampled_from(TAG_FORMS)),
+                              "requires_kw": draw(st.sampled_from([False, False, True])),
+                              "opt_single": draw(st.booleans())})
+            if rtypes:
+                rules[-1]["rtype"] = draw(st.sampled_from([None, 0, 1]))
     ev = draw(st.sampled_from(["single", "insights", "json", "json", "yaml", "json-adapter", "yaml-adapter"]))
     case = {"ups": ["ok", "skip", draw(st.sampled_from(["ok", "skip", "crash"])), draw(st.sampled_from(["ok", "skip", "crash"]))],
             "modules": modules, "rules": rules, "evaluator": ev, "incremental": draw(st.booleans()),
@@ -1372,6 +1513,8 @@ def _rule_set(draw, tier):
         if ev.endswith("-adapter"):
             case["fail_only"] = draw(st.booleans())
     case["shadows"] = draw(st.sampled_from([0, 0, 1, 2]))
+    if rtypes:
+        case["rtypes"] = rtypes
     if sharing:
         case["pools"] = pools
         case["share_args"] = draw(st.booleans())
@@ -1464,13 +1607,18 @@ def enum_filtering(tier):
     for i in range(5):
         rules[i]["links_ref"] = 0
     rules[0]["tags_ref"] = rules[2]["tags_ref"] = 0
-    pools = {"links": [{"kcs": ["http://u/1"]}], "tags": [["t1", "sec"]], "metadata": []}
+    pools = {"links": [{"kcs": ["http://u/1"]}], "tags": [["t1", "sec"]], "metadata": [], "tags_form": ["frozenset"]}
+    # spellings: the shared tags constant is a frozenset, two rules write their own tags as a tuple / a set, one
+    # is declared with a rule subclass that has class level tags, one with requires= and a bare optional
+    rules[1]["tags_form"], rules[4]["tags_form"] = "tuple", "set"
+    rules[3]["rtype"] = 0
+    rules[1]["requires_kw"] = True
     configs = [{"target": ["rule", 0], "links": {"jira": ["http://u/2"]}, "tags": ["perf"], "metadata": {"owner": "x"}},
                {"target": ["rule", 3], "links_ref": 0},
                {"target": ["none"], "links": {"bz": ["http://u/3"]}, "tags": ["perf"], "enabled": False}]
     # a rule whose spec is there but cannot be read, and one that only looks at what can be read
     rules.append({"mod": 1, "decl": [["req", 0], ["opt", 3]], "enabled": True, "reads": True, "tags": None, "links": None,
-                  "ret": {"kind": "fail", "key": "K2", "payload": {}}})
+                  "opt_single": True, "ret": {"kind": "fail", "key": "K2", "payload": {}}})
     rules.append({"mod": 0, "decl": [["grp", [1, 0]], ["opt", 2]], "enabled": True, "reads": True, "tags": None, "links": None,
                   "ret": {"kind": "info", "key": "K1", "payload": {}}})
     rules.append({"mod": 0, "decl": [["req", 1], ["grp", [1, 2]]], "enabled": True, "tags": None, "links": None,
@@ -1487,7 +1635,8 @@ def enum_filtering(tier):
                                 "upcontent": ["ok", "ok", "ok", "cpe"],
                                 "modules": [{"pkg": "a", "base": "rules"}, {"pkg": "b", "base": "rules"}],
                                 "rules": rules, "evaluator": ev, "incremental": False, "limit": 2000,
-                                "missing": missing, "show_rules": list(show), "pools": pools, "configs": configs}
+                                "missing": missing, "show_rules": list(show), "pools": pools, "configs": configs,
+                                "rtypes": [{"tags": ["perf", "t1"]}]}
                         if fo is not None:
                             case["fail_only"] = fo
                         yield case
@@ -1567,6 +1716,33 @@ REGRESSIONS = [
                    {"mod": 0, "decl": [], "enabled": True, "reads": False, "tags": [], "links": None,
                     "links_ref": 1, "tags_ref": None, "metadata_ref": None, "ret": {"kind": "response", "key": "K2", "payload": {}}}],
          "evaluator": "json", "incremental": False, "limit": None, "missing": True, "show_rules": [], "shadows": 1}),
+    # round 7: the same declarations in other spellings (tags as tuple / set / frozenset / dict view / iterator, own or
+    # shared; a rule subclass with class level tags; requires=; a bare optional dependency)
+    Reg("declaration-spellings", "rule_sets",
+        {"ups": ["ok", "skip", "ok", "ok"], "upkinds": ["component", "component", "parser", "spec"],
+         "upcontent": ["ok", "ok", "ok", "ok"], "modules": [{"pkg": "a", "base": "rules"}, {"pkg": "b", "base": "rules"}],
+         "pools": {"links": [{"kcs": ["http://u/1"]}], "tags": [["t1", "sec", "t1"], ["perf"]], "metadata": [],
+                   "tags_form": ["frozenset", "dictkeys"]},
+         "rtypes": [{"tags": ["t2", "sec"]}, {"tags": []}],
+         "configs": [{"target": ["rule", 5], "tags": ["perf"]}],
+         "rules": [{"mod": 0, "decl": [["grp", [0, 1]], ["opt", 2]], "enabled": True, "reads": True, "tags": ["t1", "t2"],
+                    "links": None, "tags_form": "tuple", "opt_single": True, "requires_kw": True,
+                    "ret": {"kind": "fail", "key": "K1", "payload": {"a": 1}}},
+                   {"mod": 0, "decl": [["req", 0]], "enabled": True, "reads": True, "tags": None, "links": None,
+                    "links_ref": 0, "tags_ref": 0, "rtype": 0, "ret": {"kind": "info", "key": "K1", "payload": {}}},
+                   {"mod": 1, "decl": [["req", 3]], "enabled": True, "reads": False, "tags": ["t2", "perf"], "links": {"kcs": []},
+                    "tags_form": "set", "rtype": 1, "requires_kw": True, "ret": {"kind": "pass", "key": "K2", "payload": {}}},
+                   {"mod": 1, "decl": [["opt", 0]], "enabled": True, "reads": True, "tags": None, "links": None,
+                    "links_ref": 0, "tags_ref": 0, "opt_single": True, "ret": {"kind": "fingerprint", "key": "K1", "payload": {}}},
+                   {"mod": 0, "decl": [], "enabled": True, "reads": False, "tags": ["sec"], "links": None, "tags_form": "iter",
+                    "rtype": 0, "ret": {"kind": "fail", "key": "K2", "payload": {}}},
+                   {"mod": 0, "decl": [["req", 2]], "enabled": True, "reads": False, "tags": [], "links": None, "tags_ref": 1,
+                    "ret": {"kind": "response", "key": "K2", "payload": {}}},
+                   {"mod": 1, "decl": [["req", 1]], "enabled": True, "reads": False, "tags": ["t1"], "links": None,
+                    "tags_form": "dictkeys", "requires_kw": True, "ret": {"kind": "fail", "key": "K1", "payload": {}}},
+                   {"mod": 1, "decl": [], "enabled": True, "reads": False, "tags": ["t1", "t1"], "links": None,
+                    "tags_form": "frozenset", "ret": {"kind": "pass", "key": "K1", "payload": {}}}],
+         "evaluator": "yaml", "incremental": False, "limit": None, "missing": True, "show_rules": [], "shadows": 1}),
     Reg("limit-exact", "responses", {"cls": "fail", "key": "K1", "kwargs": {"a": 1}, "pad": 0, "limit": None}),
     Reg("limit-plus-one", "responses", {"cls": "fail", "key": "K1", "kwargs": {"a": 1}, "pad": 1, "limit": None}),
     Reg("bytes-key", "responses", {"cls": "pass", "key": {"__bytes__": "K1"}, "kwargs": {}, "limit": None}),
